@@ -94,24 +94,40 @@ impl PidFileLocking {
         }
     }
 
+    /// Reads the PID stored in the lock file at `path`, if there is one.
+    fn read_pid(path: &Path) -> Option<usize> {
+        let mut contents = String::new();
+        File::open(path).ok()?.read_to_string(&mut contents).ok()?;
+        contents.trim().parse::<usize>().ok()
+    }
+
+    /// Removes the lock file at `path` if it still belongs to `stale_pid`.
+    ///
+    /// Finding that the owner of a lock is gone and removing the lock file are two steps. The
+    /// advisory path lock, which `lock` holds as well, keeps another process from taking the
+    /// lock over in between, which would get its lock file removed instead of the stale one.
+    fn remove_stale_file(path: &Path, stale_pid: usize) -> io::Result<bool> {
+        let mut guard = crate::path_lock(path).map_err(io::Error::other)?;
+        let _guard = guard.write()?;
+        if Self::read_pid(path) != Some(stale_pid) {
+            return Ok(false);
+        }
+        match remove_file(path) {
+            Err(e) if e.kind() != io::ErrorKind::NotFound => Err(e),
+            _ => Ok(true),
+        }
+    }
+
     /// Returns the PID of the owner of the current lock. If the PID is not longer active the lock
     /// file will be removed
     pub fn get_locker_pid(&self) -> Option<usize> {
-        let fs = File::open(&self.0);
-        if let Ok(mut file) = fs {
-            let mut contents = String::new();
-            file.read_to_string(&mut contents).ok();
-            drop(file);
-            if let Ok(pid) = contents.trim().parse::<usize>() {
-                return if Self::is_pid_active(pid) {
-                    Some(pid)
-                } else {
-                    let _ = self.remove_file();
-                    None
-                };
-            }
+        let pid = Self::read_pid(&self.0)?;
+        if Self::is_pid_active(pid) {
+            Some(pid)
+        } else {
+            let _ = Self::remove_stale_file(&self.0, pid);
+            None
         }
-        None
     }
 
     /// Checks if the current path is owned by any other process. This will return false if there is
@@ -124,7 +140,17 @@ impl PidFileLocking {
 
     /// Locks the given filepath if it is not already locked
     pub fn lock(&self) -> io::Result<()> {
-        self.release()?;
+        // Hold the advisory path lock while checking the current owner and taking the lock over,
+        // see `remove_stale_file`.
+        let mut guard = crate::path_lock(&self.0).map_err(io::Error::other)?;
+        let _guard = guard.write()?;
+        if let Some(pid) = Self::read_pid(&self.0) {
+            if pid != std::process::id() as usize && Self::is_pid_active(pid) {
+                return Err(io::Error::other(format!(
+                    "Cannot remove a dirty lock file, it is locked by another process (PID: {pid:#?})"
+                )));
+            }
+        }
         if let Some(dir) = self.0.parent() {
             // Ensure the directory exists
             create_dir_all(dir)?;
@@ -160,8 +186,9 @@ impl PidFileLocking {
                         let mut contents = String::new();
                         if file.read_to_string(&mut contents).is_ok() {
                             if let Ok(pid) = contents.trim().parse::<usize>() {
-                                if !Self::is_pid_active(pid) {
-                                    remove_file(&path)?;
+                                if !Self::is_pid_active(pid)
+                                    && Self::remove_stale_file(&path, pid)?
+                                {
                                     cleaned_paths.push(path);
                                 }
                             } else {
